@@ -58,12 +58,13 @@ Definition inner_hwire (s : state) (hp : href) : option href :=
   | _ => None
   end.
 
-(* _get_outer_hwire_from_hpin: the wire of the instance's outer pin, in the parent of the instance
-   (for the root instance the parent reference is None: the code then builds a reference that
-   starts at the cable) *)
+(* _get_outer_hwire_from_hpin: the wire of the instance's outer pin, in the parent of the instance.
+   The root instance has no enclosing occurrence: no outer wire, even when the top instance is also
+   a wired child of some other definition (since fix da79d9a; before, the code built a reference
+   rooted at the cable: corpus/hier/c12-top-as-child.json) *)
 Definition outer_hwire (s : state) (hp : href) : option href :=
   match hp with
-  | i :: _ :: x :: hparent =>
+  | i :: _ :: x :: ((_ :: _) as hparent) =>
       match assoc i (ipins s x) with
       | Some (Some w) => match par s RWires w with
                          | Some c => Some (w :: c :: hparent)
@@ -105,9 +106,11 @@ Definition hw_close (s : state) (x : sel) (fuel : nat) (start : list href) : opt
   wl_close href href href_eqb href_eqb (nb_sel s x)
            (fun hw => if sel_all x then hpins_of_hwire s hw else []) fuel start [].
 
-(* _get_hwires_from_hpins of get_hcables.py: pins are pushed under EVERY selection *)
+(* _get_hwires_from_hpins of get_hcables.py: since fix 9a9c0d8 the same loop as in get_hwires.py
+   (before it pushed the pins of every found wire under every selection, so the narrow selections
+   kept tracing: corpus/hier/c12-hcables-narrow-selection-overreach.json) *)
 Definition hc_close (s : state) (x : sel) (fuel : nat) (start : list href) : option (list href) :=
-  wl_close href href href_eqb href_eqb (nb_sel s x) (hpins_of_hwire s) fuel start [].
+  hw_close s x fuel start.
 
 (* fuel for the closures: one unit per pin attached to a hierarchical wire of the design
    ([pin_weight] of the universe [univ] = Enum.all_hwires, computed once per netlist), plus the
